@@ -1,8 +1,9 @@
 //! `dv threads`: stress evaluation of one shared ModelEvaluator from many threads (C20).
 //! One JSON request per line:
-//!   {"xml": model, "calls": [[invocable, context text], ...], "threads": n, "per_thread": k, "seed": s, "timeout_s": t}
-//! One Arc<ModelEvaluator> is built from the model; every call is first evaluated sequentially (expected value), then
-//! `n` threads each perform `k` calls in an order, with start/mid barriers and yield_now injections derived from the seed;
+//!   {"xml": model, "calls": [[invocable, context text], ...], "threads": n, "per_thread": k, "trials": r, "seed": s, "timeout_s": t}
+//! The expected value of every call comes from a reference evaluator that only one thread ever uses.  Each of the `r` trials
+//! builds a FRESH Arc<ModelEvaluator> (cold: nothing has been evaluated on it) and releases `n` threads from a barrier; all of
+//! them make the same call first, then `k` calls in an order with mid barriers and yield_now injections derived from the seed;
 //! every result is compared with the sequential result of the same (invocable, input).  A watchdog reports a deadlock
 //! when the threads do not finish within `t` seconds (the process then exits: stuck threads cannot be joined).
 //! After the threads a final single-threaded pass over all calls detects a poisoned lock.
@@ -51,113 +52,175 @@ fn one(req: &J) -> J {
     .unwrap_or_default();
   let threads = req["threads"].as_u64().unwrap_or(4) as usize;
   let per_thread = req["per_thread"].as_u64().unwrap_or(100) as usize;
+  let trials = req["trials"].as_u64().unwrap_or(1).max(1) as usize;
   let seed = req["seed"].as_u64().unwrap_or(1);
   let timeout_s = req["timeout_s"].as_u64().unwrap_or(30);
   let defs = match dmntk_model::parse(xml) {
     Ok(d) => d,
     Err(e) => return json!({"err": format!("parse: {}", e)}),
   };
-  let me: Arc<ModelEvaluator> = match ModelEvaluator::new(&defs) {
+  // the reference evaluator: only ever used by one thread
+  let reference: Arc<ModelEvaluator> = match ModelEvaluator::new(&defs) {
     Ok(m) => m,
     Err(e) => return json!({"err": format!("build: {}", e)}),
   };
   if calls.is_empty() {
     return json!({"err": "no calls"});
   }
-  // sequential reference
-  let expected: Arc<Vec<String>> = Arc::new(calls.iter().map(|(i, c)| eval_one(&me, i, c)).collect());
+  // sequential reference, under the watchdog as well: a write acquisition re-entered by a nested evaluation hangs a single thread
+  let calls = Arc::new(calls);
+  let progress = Arc::new(AtomicUsize::new(0));
+  let (etx, erx) = mpsc::channel::<Vec<String>>();
+  {
+    let me = Arc::clone(&reference);
+    let calls = Arc::clone(&calls);
+    let progress = Arc::clone(&progress);
+    std::thread::spawn(move || {
+      let mut out = vec![];
+      for (i, c) in calls.iter() {
+        out.push(eval_one(&me, i, c));
+        progress.fetch_add(1, Ordering::SeqCst);
+      }
+      let _ = etx.send(out);
+    });
+  }
+  let expected: Arc<Vec<String>> = match erx.recv_timeout(Duration::from_secs(timeout_s)) {
+    Ok(v) => Arc::new(v),
+    Err(_) => {
+      let ix = progress.load(Ordering::SeqCst).min(calls.len() - 1);
+      let r = json!({"deadlock": true, "phase": "sequential", "calls": ix, "threads": 1, "finished_threads": 0, "mismatches": [],
+                     "hanging_call": {"call_index": ix, "invocable": calls[ix].0, "input": calls[ix].1}});
+      println!("{}", r);
+      std::io::stdout().flush().unwrap();
+      std::process::exit(0);
+    }
+  };
   if req["show"].as_bool().unwrap_or(false) {
     return json!({"expected": *expected});
   }
-  let calls = Arc::new(calls);
-  let barrier = Arc::new(Barrier::new(threads));
   let done = Arc::new(AtomicUsize::new(0));
-  let (tx, rx) = mpsc::channel::<(usize, Vec<J>, usize)>();
-  let sync_every = 1 + (seed % 7) as usize * 16;
-  for t in 0..threads {
-    let me = Arc::clone(&me);
-    let calls = Arc::clone(&calls);
-    let expected = Arc::clone(&expected);
-    let barrier = Arc::clone(&barrier);
-    let done = Arc::clone(&done);
-    let tx = tx.clone();
-    std::thread::spawn(move || {
-      let mut rng = Rng(seed ^ ((t as u64 + 1) * 0x1234567));
-      let mut bad: Vec<J> = vec![];
-      let mut panics = 0usize;
-      barrier.wait();
-      for k in 0..per_thread {
-        if k > 0 && k % sync_every == 0 {
-          barrier.wait(); // all threads do the same number of calls: re-align them so that they collide again
-        }
-        let ix = match rng.below(4) {
-          0 => k % calls.len(),                       // all threads on the same call
-          1 => (k + t) % calls.len(),                 // neighbouring calls
-          _ => rng.below(calls.len() as u64) as usize, // random
-        };
-        for _ in 0..rng.below(3) {
-          std::thread::yield_now();
-        }
-        let (inv, ctx) = &calls[ix];
-        let r = std::panic::catch_unwind(std::panic::AssertUnwindSafe(|| eval_one(&me, inv, ctx)));
-        match r {
-          Ok(v) => {
-            if v != expected[ix] && bad.len() < 5 {
-              bad.push(json!({"thread": t, "call_index": ix, "invocable": inv, "input": ctx, "got": v, "sequential": expected[ix]}));
-            }
-          }
-          Err(_) => {
-            panics += 1;
-            if bad.len() < 5 {
-              bad.push(json!({"thread": t, "call_index": ix, "invocable": inv, "input": ctx, "got": "panic", "sequential": expected[ix]}));
-            }
-          }
-        }
-        done.fetch_add(1, Ordering::Relaxed);
-      }
-      let _ = tx.send((t, bad, panics));
-    });
-  }
-  drop(tx);
   let mut mismatches: Vec<J> = vec![];
+  let mut final_bad: Vec<J> = vec![];
   let mut panics = 0usize;
-  let mut finished = 0usize;
   let deadline = std::time::Instant::now() + Duration::from_secs(timeout_s);
-  while finished < threads {
-    let left = deadline.saturating_duration_since(std::time::Instant::now());
-    match rx.recv_timeout(left) {
-      Ok((_t, bad, p)) => {
-        finished += 1;
-        panics += p;
-        mismatches.extend(bad);
+  for trial in 0..trials {
+    // a FRESH evaluator for every trial: the first evaluations of every invocable race on a cold evaluator
+    let me: Arc<ModelEvaluator> = match ModelEvaluator::new(&defs) {
+      Ok(m) => m,
+      Err(e) => return json!({"err": format!("build: {}", e)}),
+    };
+    let barrier = Arc::new(Barrier::new(threads));
+    let (tx, rx) = mpsc::channel::<(usize, Vec<J>, usize)>();
+    let tseed = seed.wrapping_add((trial as u64).wrapping_mul(0x9E37_79B9));
+    let sync_every = 1 + (tseed % 7) as usize * 16;
+    // the call every thread makes first in this trial (all together, straight after the barrier)
+    let first_ix = (tseed as usize).wrapping_mul(31).wrapping_add(trial * 7) % calls.len();
+    for t in 0..threads {
+      let me = Arc::clone(&me);
+      let calls = Arc::clone(&calls);
+      let expected = Arc::clone(&expected);
+      let barrier = Arc::clone(&barrier);
+      let done = Arc::clone(&done);
+      let tx = tx.clone();
+      std::thread::spawn(move || {
+        let mut rng = Rng(tseed ^ ((t as u64 + 1) * 0x1234567));
+        let mut bad: Vec<J> = vec![];
+        let mut panics = 0usize;
+        // inputs of the first call are parsed before the barrier so that the evaluations themselves start together
+        let first_ctx = dmntk_feel_evaluator::evaluate_context(&Scope::default(), &calls[first_ix].1).ok();
+        barrier.wait();
+        for k in 0..per_thread {
+          if k > 0 && k % sync_every == 0 {
+            barrier.wait(); // all threads do the same number of calls: re-align them so that they collide again
+          }
+          let ix = if k == 0 {
+            first_ix
+          } else {
+            match rng.below(4) {
+              0 => (first_ix + k) % calls.len(),          // all threads on the same call
+              1 => (first_ix + k + t) % calls.len(),      // neighbouring calls
+              _ => rng.below(calls.len() as u64) as usize, // random
+            }
+          };
+          if k > 0 {
+            for _ in 0..rng.below(3) {
+              std::thread::yield_now();
+            }
+          }
+          let (inv, ctx) = &calls[ix];
+          let r = std::panic::catch_unwind(std::panic::AssertUnwindSafe(|| {
+            if k == 0 {
+              match &first_ctx {
+                Some(c) => canon(&me.evaluate_invocable(inv, c)).to_string(),
+                None => "\"input-error\"".to_string(),
+              }
+            } else {
+              eval_one(&me, inv, ctx)
+            }
+          }));
+          match r {
+            Ok(v) => {
+              if v != expected[ix] && bad.len() < 5 {
+                bad.push(json!({"trial": trial, "thread": t, "call_number": k, "call_index": ix, "invocable": inv, "input": ctx, "got": v, "sequential": expected[ix]}));
+              }
+            }
+            Err(_) => {
+              panics += 1;
+              if bad.len() < 5 {
+                bad.push(json!({"trial": trial, "thread": t, "call_number": k, "call_index": ix, "invocable": inv, "input": ctx, "got": "panic", "sequential": expected[ix]}));
+              }
+            }
+          }
+          done.fetch_add(1, Ordering::Relaxed);
+        }
+        let _ = tx.send((t, bad, panics));
+      });
+    }
+    drop(tx);
+    let mut finished = 0usize;
+    while finished < threads {
+      let left = deadline.saturating_duration_since(std::time::Instant::now());
+      match rx.recv_timeout(left) {
+        Ok((_t, bad, p)) => {
+          finished += 1;
+          panics += p;
+          if mismatches.len() < 8 {
+            mismatches.extend(bad);
+          }
+        }
+        Err(_) => break,
       }
-      Err(_) => break,
+    }
+    if finished < threads {
+      // report and leave: stuck threads cannot be joined
+      let r = json!({"calls": done.load(Ordering::Relaxed), "mismatches": mismatches, "deadlock": true, "finished_threads": finished, "trial": trial,
+                     "threads": threads, "panics": panics, "final_ok": J::Null});
+      println!("{}", r);
+      std::io::stdout().flush().unwrap();
+      std::process::exit(0);
+    }
+    // every call once more, alone, on the evaluator the threads have just raced on: a poisoned lock or state left behind
+    // by the concurrent phase (sticky corruption) shows here
+    if final_bad.len() < 3 {
+      for (ix, (inv, ctx)) in calls.iter().enumerate() {
+        let a = eval_one(&me, inv, ctx);
+        if a != expected[ix] {
+          final_bad.push(json!({"trial": trial, "call_index": ix, "invocable": inv, "input": ctx, "got": a, "sequential": expected[ix]}));
+          if final_bad.len() >= 3 {
+            break;
+          }
+        }
+      }
+    }
+    if !mismatches.is_empty() && !final_bad.is_empty() {
+      break;
     }
   }
-  let deadlock = finished < threads;
-  if deadlock {
-    // a panic inside a barrier-synchronised group also ends here; report and leave: stuck threads cannot be joined
-    let r = json!({"calls": done.load(Ordering::Relaxed), "mismatches": mismatches, "deadlock": true, "finished_threads": finished,
-                   "threads": threads, "panics": panics, "final_ok": J::Null});
-    println!("{}", r);
-    std::io::stdout().flush().unwrap();
-    std::process::exit(0);
-  }
-  // poisoned lock / damaged shared state: one more sequential pass
-  let again: Vec<String> = calls.iter().map(|(i, c)| eval_one(&me, i, c)).collect();
-  let final_bad: Vec<J> = again
-    .iter()
-    .zip(expected.iter())
-    .enumerate()
-    .filter(|(_, (a, b))| a != b)
-    .take(3)
-    .map(|(ix, (a, b))| json!({"call_index": ix, "invocable": calls[ix].0, "input": calls[ix].1, "got": a, "sequential": b}))
-    .collect();
   let mut distinct: Vec<&String> = expected.iter().collect();
   distinct.sort();
   distinct.dedup();
   let distinct_results = distinct.len();
-  json!({"calls": done.load(Ordering::Relaxed), "mismatches": mismatches, "deadlock": false, "panics": panics, "threads": threads,
+  json!({"calls": done.load(Ordering::Relaxed), "mismatches": mismatches, "deadlock": false, "panics": panics, "threads": threads, "trials": trials,
          "final_ok": final_bad.is_empty(), "final_mismatches": final_bad,
          "distinct_results": distinct_results,
          "null_results": expected.iter().filter(|e| e.as_str() == "null").count()})
